@@ -863,7 +863,10 @@ class tensor:
                 classidx[:, thisgrp] = np.sort(idx[:, thisgrp], axis=1)
 
                 # Compare each element to its class exemplar
-                if np.any(self.data.ravel() != self.data[tuple(classidx.transpose())]):
+                if np.any(
+                    self.data.ravel(order=self.order)
+                    != self.data[tuple(classidx.transpose())]
+                ):
                     return False
 
             # We survived all the tests!
